@@ -178,6 +178,7 @@ func cmdCheck(args []string) int {
 	for _, fc := range flowChecks[*prop] {
 		sum.Obls = append(sum.Obls, fc(w)...)
 	}
+	sum.Obls = append(sum.Obls, flowOrderClauses(w, *prop)...)
 	kf := loadFindings(filepath.Join(*verif, "KNOWN_FINDINGS.txt"))
 	for _, o := range sum.Obls {
 		o.NoRetry = kf.match(sum.ID, o.Name) != nil
